@@ -86,7 +86,14 @@ pub fn expr_params(e: &E, out: &mut Col) {
         }
         E::Exists | E::ScalarSub => out.push(PV::I32(crate::expr_spec::SUB_BOUND)),
         // function constructors that add a bound value of their own in front of the argument
-        E::Func(crate::expr_spec::F::PgToTsqueryCfg | crate::expr_spec::F::PgToTsvectorCfg, args) => {
+        E::Func(
+            crate::expr_spec::F::PgToTsqueryCfg
+            | crate::expr_spec::F::PgToTsvectorCfg
+            | crate::expr_spec::F::PgPlaintoTsqueryCfg
+            | crate::expr_spec::F::PgPhrasetoTsqueryCfg
+            | crate::expr_spec::F::PgWebsearchToTsqueryCfg,
+            args,
+        ) => {
             out.push(PV::U32(crate::expr_spec::PG_REGCONFIG));
             for a in args {
                 expr_params(a, out);
